@@ -13,7 +13,7 @@ use vh::util::escape;
 mod elf;
 mod gen;
 mod launch;
-use gen::{lookup_case, startup_case, Case, BUILD_CLASS, MODES};
+use gen::{lookup_case, startup_case, Case, BUILD_CLASS, MODES, NB};
 
 pub const SIG_PREFIX_VAR: &str = "env::var|wrong-entry|entry name is a proper prefix of the key";
 pub const SIG_PREFIX_VAR_UNIX: &str = "env::var_unix|wrong-entry|entry name is a proper prefix of the key";
@@ -233,7 +233,9 @@ pub struct Env<'a> {
     /// the driver may change the probe's uid/gid
     pub root: bool,
     /// relocation tables of the six builds (read from the executables)
-    pub relocs: [Option<elf::RelocInfo>; 6],
+    pub relocs: [Option<elf::RelocInfo>; NB],
+    /// the optional builds that exist
+    pub have: [bool; NB],
     /// signature this sub-check is shrinking towards (set at its first failure)
     pub target: RefCell<Option<String>>,
 }
@@ -522,10 +524,10 @@ pub fn run_case(env: &Env, c: &Case, scope: Scope) -> CaseResult {
     rep.class_if(set_ids.is_some() && c.egid.is_some(), "effective-ids-differ-from-real-ids");
     rep.class_if(run_ids.0 != run_ids.1, "uid-differs-from-gid");
     let mut fails: Vec<Failure> = Vec::new();
-    let mut done = [false; 6];
+    let mut done = [false; NB];
     for &b in &c.builds {
         let b = b as usize;
-        if b >= 6 || done[b] {
+        if b >= NB || done[b] || !env.have[b] {
             continue;
         }
         done[b] = true;
@@ -641,19 +643,26 @@ pub fn run_case(env: &Env, c: &Case, scope: Scope) -> CaseResult {
 
 pub fn run(ctx: &Ctx) {
     let root = vh::runner::verif_root();
-    for b in 0..6 {
+    let mut have = [true; NB];
+    for b in 0..NB {
         let p = probe_path(&root, b);
         if !std::path::Path::new(&p).exists() {
+            if b >= 6 {
+                // optional build (the linker did not produce it): the other builds decide
+                eprintln!("[C07] optional probe build {} is not available", MODES[b]);
+                have[b] = false;
+                continue;
+            }
             eprintln!("[C07] probe binary {p} is missing (run lib/build_probes.py probe-env)");
             std::process::exit(3);
         }
     }
     ctx.extra("probe", serde_json::json!(format!("{root}/probes/env (probe-env), builds: {}", MODES.join(" "))));
     let thorough = ctx.thorough();
-    let relocs: [Option<elf::RelocInfo>; 6] = std::array::from_fn(|b| elf::read(&probe_path(&root, b)));
+    let relocs: [Option<elf::RelocInfo>; NB] = std::array::from_fn(|b| if have[b] { elf::read(&probe_path(&root, b)) } else { None });
     ctx.extra(
         "relocations",
-        serde_json::json!(relocs.iter().enumerate().map(|(b, r)| format!("{}: {}", MODES[b], r.as_ref().map(|r| format!("{} relative ({} judged strictly), self-relocating={}", r.relative.len(), r.relative.iter().filter(|(o, _)| r.strict(*o)).count(), r.self_relocating)).unwrap_or_else(|| "unreadable".into()))).collect::<Vec<_>>()),
+        serde_json::json!(relocs.iter().enumerate().map(|(b, r)| format!("{}: {}", MODES[b], r.as_ref().map(|r| format!("{} relative ({} judged strictly; {}), self-relocating={}", r.relative.len(), r.relative.iter().filter(|(o, _)| r.strict(*o)).count(), if r.rel_format { "REL, implicit addends" } else { "RELA" }, r.self_relocating)).unwrap_or_else(|| "unreadable".into()))).collect::<Vec<_>>()),
     );
     // changing the probe's ids needs root and a probe that other users may execute: try once
     let is_root = unsafe { libc::geteuid() } == 0
@@ -661,10 +670,10 @@ pub fn run(ctx: &Ctx) {
     ctx.extra("probe_ids", serde_json::json!(if is_root { "driver is root: 3 cases in 4 run the probe under generated uid/gid (fork+setgid+setuid+execve)" } else { "driver ids inherited (posix_spawn only)" }));
 
     // focused lookups first: what they report, the full sub-check does not report again
-    let env = Env { ctx, probe_dir: root.clone(), root: is_root, relocs: relocs.clone(), target: RefCell::new(None) };
+    let env = Env { ctx, probe_dir: root.clone(), root: is_root, relocs: relocs.clone(), have, target: RefCell::new(None) };
     ctx.run_prop_opts("lookup-var", ctx.cases(150, 3000), 600, lookup_case(thorough), |c: &Case| run_case(&env, c, Scope::Var));
-    let env = Env { ctx, probe_dir: root.clone(), root: is_root, relocs: relocs.clone(), target: RefCell::new(None) };
+    let env = Env { ctx, probe_dir: root.clone(), root: is_root, relocs: relocs.clone(), have, target: RefCell::new(None) };
     ctx.run_prop_opts("lookup-var-unix", ctx.cases(150, 3000), 600, lookup_case(thorough), |c: &Case| run_case(&env, c, Scope::VarUnix));
-    let env = Env { ctx, probe_dir: root, root: is_root, relocs: relocs.clone(), target: RefCell::new(None) };
+    let env = Env { ctx, probe_dir: root, root: is_root, relocs: relocs.clone(), have, target: RefCell::new(None) };
     ctx.run_prop_opts("startup", ctx.cases(1200, 20_000), 1500, startup_case(thorough), |c: &Case| run_case(&env, c, Scope::All));
 }
